@@ -1101,7 +1101,7 @@ func (recEngine) Generate(rng *rand.Rand, tier string) []core.Case {
 	// (b'') interrupted-and-resumed recoveries (generated last: the cases above do not depend on them)
 	nIntr := 6
 	if thorough {
-		nIntr = 60
+		nIntr = 40
 	}
 	for c := 0; c < nIntr; c++ {
 		for _, kind := range []string{"lock", "timeout", "stop", "halt"} {
